@@ -18,7 +18,7 @@ from a connection that was in RFB_NORMAL and not view-only on the previous line.
 import json, os, shutil, struct, sys
 import vlib
 
-VARIANT = 0        # which proposed repairs the library under test contains (found out by detect_variant)
+VARIANT = 0        # 0 = the library behaves like /repo HEAD; a set bit = that former defect is back (detect_variant)
 PID = "C06"
 PROP_FILE = "Props/Properties_C06.v"
 EXTRACT = "Extract/Extract_C06.vo"
@@ -866,13 +866,15 @@ sx 100 200 29
 
 
 def detect_variant(cexe):
-    """which of the proposed repairs (notes/fix_C06_1, fix_C06_2) does the library contain?  Decided on the
-    witnesses of the two findings; the mirror model is then run in the same variant."""
+    """The model's baseline (variant 0) is the code with the repairs 4105625 (bit 0: stale coalesced position) and
+    c7c2b1b (bit 1: ScaleX rounding).  Run the two witnesses on the library: a set bit means the former defect is
+    back; the mirror model is then run in that legacy variant so that the correspondence stays meaningful, while the
+    independent oracle reports the defect itself (the findings are 'fixed', nothing suppresses them any more)."""
     rc, out, err = vlib.run_driver(cexe, PROBE, timeout=120)
     v = 0
-    if "P:0:0:72:74" not in out:
+    if "P:0:0:72:74" in out:
         v |= 1
-    if "sx 58" in out:
+    if "sx 57" in out:
         v |= 2
     return v
 
@@ -996,7 +998,7 @@ def check(ctx):
     global VARIANT
     cexe, mexe, proof_ok = build(ctx)
     VARIANT = detect_variant(cexe)
-    ctx.coverage["library_variant"] = {"fix_C06_1_defer": bool(VARIANT & 1), "fix_C06_2_scale": bool(VARIANT & 2)}
+    ctx.coverage["library_variant"] = {"legacy_stale_coalesced_position": bool(VARIANT & 1), "legacy_scale_rounding": bool(VARIANT & 2)}
     cases = gen_cases(ctx)
     # corpus first
     corpus = []
@@ -1142,9 +1144,114 @@ def check(ctx):
                       "correspondence: Session/InputDefs.v (process/handle/parse_normal/apply_normal...) vs libvncserver\n"
                       "script:\n" + "\n".join(l[:4000] for l in small) + "\n\nimplementation output:\n" + co[:20000] + ce[-1500:] +
                       "\nmodel output:\n" + mo[:20000], no_input=True)
+    if not ctx.violations:
+        ws_differential(ctx, cexe, cases, chunks, cc, base)
+    if not ctx.violations:
+        ext_viewonly_part(ctx)
     if not proof_ok and not ctx.violations:
         vlib.report_proof_failure(ctx, "Correspondence and the input-delivery oracles were run on %d script lines "
                                   "without exhibiting a failing input." % nops)
+
+
+WS_KINDS = ("single", "burst", "scale", "pointer", "viewonly", "cutlimit", "defer")
+
+
+def ws_differential(ctx, cexe, cases, chunks, cc, base):
+    """Differential with C09's transport: the same sessions with every connection speaking RFB inside WebSocket binary
+    frames (one masked frame per fragment) must produce the same callback log and end in the same state as over plain
+    TCP.  Implementation against implementation (the WebSocket event loop serves several buffered messages per pass, so
+    the per-line placement legitimately differs and the mirror model is not involved).  Lock-step classes without
+    password authentication only."""
+    picked = []
+    for j, c in enumerate(cases):
+        k = c.kind.split("-")[0]
+        if k not in WS_KINDS or any(s["k"] == "screen" and s["npw"] > 0 for s in c.steps):
+            continue
+        if any(s["k"] == "eof" for s in c.steps) or any(len(s.get("data", "")) > 400000 for s in c.steps):
+            continue
+        picked.append(j)
+    if ctx.quick():
+        picked = picked[::4]
+    wl = []
+    for n, j in enumerate(picked):
+        lines = chunks[base + j]
+        wl.append(["case %d ws-%s" % (n, cases[j].kind)] + [("ws" + l) if l.startswith("connect ") else l for l in lines[1:]])
+    if not wl:
+        return
+    rc, out, err = vlib.run_driver(cexe, "\n".join("\n".join(x) for x in wl) + "\n", timeout=1500)
+    wc = vlib.split_cases(out)
+    ndiff = 0
+    for n, j in enumerate(picked):
+        tl = cc[base + j][1] if base + j < len(cc) else []
+        wlns = wc[n][1] if n < len(wc) else []
+        te, we = events_of(tl), events_of(wlns)
+        tfin = parse_line(tl[-1]) if tl else None
+        wfin = parse_line(wlns[-1]) if wlns else None
+        same_end = (tfin is not None and wfin is not None and tfin[2] == wfin[2] and tfin[3] == wfin[3])
+        if te != we or not same_end:
+            ndiff += 1
+            if ndiff == 1:
+                i = 0
+                while i < len(te) and i < len(we) and te[i] == we[i]:
+                    i += 1
+                ctx.violation("input delivery depends on the transport: over WebSocket frames the application gets %s as callback #%d "
+                              "(%d callbacks, final state %s), over plain TCP %s (%d callbacks, final state %s) for the same client bytes"
+                              % (we[i] if i < len(we) else "<nothing>", i, len(we), wlns[-1].split(" cl=")[-1][:80] if wlns else "?",
+                                 te[i] if i < len(te) else "<nothing>", len(te), tl[-1].split(" cl=")[-1][:80] if tl else "?"),
+                              {"kind": "ws_differential"},
+                              "script:\n" + "\n".join(l[:4000] for l in wl[n]) + "\n\nimplementation output (WebSocket):\n" +
+                              "\n".join(wlns)[:12000] + "\n\nimplementation output (TCP):\n" + "\n".join(tl)[:12000])
+    ctx.coverage["ws_differential_cases"] = len(picked)
+    ctx.coverage["ws_differential_differences"] = ndiff
+    ctx.coverage.setdefault("input_distribution", {})["ws-differential(impl vs impl)"] = len(picked)
+
+
+def ext_viewonly_part(ctx):
+    """C06 also covers clipboard messages of view-only clients in their extended (zlib) form: sessions with view-only
+    reference peers sending ExtendedClipboard Provides, on the C18 model/harness (same session machinery + zlib oracle)."""
+    import C18
+    os.makedirs(os.path.join(vlib.VERIF, "build", "ocaml", "C18"), exist_ok=True)
+    os.makedirs(os.path.join(vlib.BUILD, "ocaml", "C18"), exist_ok=True)
+    cexe = vlib.build_harness("vdrv_clip", ["vdrv_clip.c"], wraps=("select", "gettimeofday"), client=True)
+    ok, out = vlib.coq_make(["Extract/Extract_C18.vo"])
+    src = os.path.join(vlib.VERIF, "build", "ocaml", "C18")
+    dst = os.path.join(vlib.BUILD, "ocaml", "C18")
+    if os.path.abspath(src) != os.path.abspath(dst):
+        for fn in ("model.ml", "model.mli"):
+            if os.path.exists(os.path.join(src, fn)):
+                shutil.copy(os.path.join(src, fn), os.path.join(dst, fn))
+    mexe = vlib.build_ocaml("C18", "driver_C18.ml", "Extract/Extract_C18.vo")
+    C18.VARIANT = C18.detect_variant(cexe)
+    n = 60 if ctx.quick() else 1500
+    cases = [C18.case_ext_viewonly(ctx.rng) for _ in range(n)]
+    chunks = [["case %d %s" % (j, b.kind)] + b.lines for j, b in enumerate(cases)]
+    text = "\n".join("\n".join(ch) for ch in chunks) + "\n"
+    (rc1, cout, cerr), (rc2, mout, merr) = C18.run_both(cexe, mexe, text)
+    cc, mc = vlib.split_cases(cout), vlib.split_cases(mout)
+    nlines, nmis = 0, 0
+    for idx, b in enumerate(cases):
+        il = cc[idx][1] if idx < len(cc) else []
+        ml = mc[idx][1] if idx < len(mc) else []
+        nlines += len(b.lines)
+        e, feat = C18.judge(b, il)
+        if e:
+            feat = dict(feat)
+            feat["kind"] = "gating_ext" if feat.get("kind") == "text" else feat.get("kind")
+            ctx.violation("input delivery violated on the implementation (extended clipboard): " + e, feat,
+                          "driver: C18 (harness/vdrv_clip.c, ocaml/driver_C18.ml)\nscript:\n" + "\n".join(l[:3000] for l in chunks[idx]) +
+                          "\n\nexpect: " + json.dumps(dict(exp=b.exp, known_bad=b.known_bad)) +
+                          "\n\nimplementation output:\n" + "\n".join(il)[:20000] + "\nmodel output:\n" + "\n".join(ml)[:20000])
+            break
+        if il != ml:
+            nmis += 1
+    if nmis and not ctx.violations:
+        ctx.violation("correspondence Session/ClipboardDefs.v <-> libvncserver differs on %d extended-clipboard/view-only sessions; "
+                      "the gating predicate held on every implementation output" % nmis, {"kind": "correspondence"},
+                      "correspondence: ext_cut_real on view-only connections (run through the C18 drivers)", no_input=True)
+    ctx.coverage["ext_viewonly_cases"] = len(cases)
+    ctx.coverage["ext_viewonly_lines"] = nlines
+    ctx.coverage["evaluations"] = ctx.coverage.get("evaluations", 0) + nlines
+    ctx.coverage.setdefault("input_distribution", {})["extviewonly(C18 drivers)"] = len(cases)
 
 
 def replay(ctx, path):
@@ -1152,6 +1259,10 @@ def replay(ctx, path):
     if "script:\n" not in txt:
         print("replay names a theorem/correspondence, re-running the full check")
         return check(ctx)
+    if "driver: C18" in txt:
+        import C18
+        vlib.prove(ctx, PROP_FILE, [EXTRACT, "Extract/Extract_C18.vo"])
+        return C18.replay_script(ctx, txt)
     body = txt.split("script:\n", 1)[1].split("\n\n", 1)[0]
     lines = [l for l in body.split("\n") if l.strip()]
     steps = None
